@@ -49,6 +49,28 @@ theorem relComp_default (hR : StepRel R) {t : Fun.Term} (h : RelCwc R t)
     obtain ⟨-, rfl⟩ := hc
     exact hR.trans (hR.freshCovar st) (h _ _ _ _ hx)
 
+/-- the capture guard of `let` / `case` -/
+theorem rel_guardedLvl (hR : StepRel R) {binders : List String} {ty : Option Fun.Ty} {site : String}
+    {core : CwcFn} (hcore : ∀ c st s st', core c st = .ok (s, st') → R st st') :
+    ∀ lvl c st s st', guardedLvl binders ty site core lvl c st = .ok (s, st') → R st st'
+  | 0, c, st, s, st', h => by simp [guardedLvl_zero] at h
+  | lvl + 1, c, st, s, st', h => by
+    rw [guardedLvl_succ] at h
+    split at h
+    · cases ty with
+      | none => simp at h
+      | some t =>
+        simp only [defaultCompile_eq] at h
+        cases hx : guardedLvl binders (some t) site core lvl
+            (.var .cns ⟨(freshCovar st).1, 0⟩ (compileTy t)) (freshCovar st).2 with
+        | error e => simp [hx] at h
+        | ok r =>
+          obtain ⟨s1, st1⟩ := r
+          simp only [hx, Except.ok.injEq, Prod.mk.injEq] at h
+          obtain ⟨-, rfl⟩ := h
+          exact hR.trans (hR.freshCovar st) (rel_guardedLvl hR hcore lvl _ _ _ _ hx)
+    · exact hcore _ _ _ _ h
+
 /-- forms whose `compile_with_cont` is `Cut(compile, cont)` -/
 theorem relCwc_of_comp {t : Fun.Term} (hc : RelComp R t)
     (hcwc : ∀ c st, ∃ ty, compileWithCont t c st =
@@ -203,6 +225,9 @@ theorem rel_term (hR : StepRel R) : ∀ t : Fun.Term, RelCwc R t ∧ RelComp R t
     have hcwc : RelCwc R (.letIn x varTy bound body ty) := by
       intro c st s st' h
       rw [cwc_letIn] at h
+      refine rel_guardedLvl hR ?_ _ _ _ _ _ h
+      intro c st s st' h
+      unfold letCore at h
       cases hx : compileWithCont body c st with
       | error e => simp [hx] at h
       | ok r1 =>
@@ -279,6 +304,9 @@ theorem rel_term (hR : StepRel R) : ∀ t : Fun.Term, RelCwc R t ∧ RelComp R t
     have hcwc : RelCwc R (.case scrutinee tyArgs clauses ty) := by
       intro c st s st' h
       rw [cwc_case] at h
+      refine rel_guardedLvl hR ?_ _ _ _ _ _ h
+      intro c st s st' h
+      unfold caseCore at h
       have h0 := stepRel_shareIf hR (decide (clausesLen clauses ≤ 1) || isLeaf c) c st
       generalize (if (decide (clausesLen clauses ≤ 1) || isLeaf c) = true then (c, st)
         else share c st) = r at h h0
@@ -319,9 +347,9 @@ theorem rel_term (hR : StepRel R) : ∀ t : Fun.Term, RelCwc R t ∧ RelComp R t
     have hcwc : RelCwc R (.goto target t ty) := by
       intro c st s st' h
       rw [cwc_goto] at h
-      cases ty with
-      | none => simp at h
-      | some gty => exact ht _ _ _ _ h
+      cases hg : getType t with
+      | none => simp [hg] at h
+      | some gty => simp only [hg] at h; exact ht _ _ _ _ h
     exact ⟨hcwc, relComp_default hR hcwc (fun _ _ => rfl)⟩
   | .label a t ty => by
     have ht := (rel_term hR t).1
